@@ -60,6 +60,23 @@ def custom(ctx):
                 if n == 1:
                     failures.append(("pinned", c, "result depends on history/residue (%s): plain run gave %r, this mode gave %r" % (name, a[-200:], x[-200:]), x))
         info["modes"].append("%s: %d differing lines" % (name, n))
+    # builds in which every uninitialised local starts as zero / as a 0xFE pattern
+    for cfgname in ("initzero", "initpat"):
+        try:
+            bi = ctx.build(cfgname)
+        except RuntimeError as e:
+            info["modes"].append("%s build not possible: %s" % (cfgname, str(e)[-120:]))
+            continue
+        rcI, I, _ = ctx.run_c(bi, cases)
+        evals += len(cases)
+        n = 0
+        for c, a, x in zip(cases, A, I):
+            if a != x:
+                n += 1
+                if n == 1:
+                    failures.append((cfgname, c, "result depends on the initial content of an uninitialised local variable "
+                                     "(build with -ftrivial-auto-var-init differs from the plain build): plain %r, %s %r" % (a[-200:], cfgname, x[-200:]), x))
+        info["modes"].append("%s vs plain: %d differing lines" % (cfgname, n))
     nm = 0
     for c, a, m in zip(cases, A, M):
         if a != m:
